@@ -68,6 +68,9 @@ def check_case(ctx, case):
                                'font-size: %dpx' % st['fs']):
                     if needle not in css:
                         return 'style sheet lacks %r' % needle
+            r5 = ctx.conv(s, entry=5, flags=fl, ow=3.0, **st)
+            if not r5.ok or r5.out != r.out:
+                return 'switch set %d: a CellBuffer that was rendered before with other settings renders differently from a fresh one' % fl
             g = (sc.W, sc.H, sc.sorted())
             if G is None:
                 G = g
@@ -91,6 +94,27 @@ def check_case(ctx, case):
                     return 'override size: backdrop %r is not the overridden size' % bd
             if fl & 2 and so.style[0].text != sc.style[0].text:
                 return 'override size changes the style sheet'
+        # every look setting varied alone against the call before it: the style sheet must follow each of them
+        prev = dict(st)
+        ctx.conv(s, entry=3, flags=7, **prev)
+        for field, alt in (('fs', prev['fs'] + 7), ('ff', 'Courier New, ' + prev['ff']), ('fill', 'teal'), ('bg', 'ivory'), ('sc', 'maroon'), ('sw', prev['sw'] + 1.5)):
+            cur = dict(prev)
+            cur[field] = alt
+            r = ctx.conv(s, entry=3, flags=7, **cur)
+            if not r.ok:
+                return 'conversion failed: ' + r.fail_text()
+            css = Scene(r.out).style[0].text
+            sw = cur['sw']
+            needles = ['stroke: %s' % cur['sc'], 'fill: %s' % cur['fill'], 'fill: %s' % cur['bg'], 'font-family: %s' % cur['ff'], 'font-size: %dpx' % cur['fs'],
+                       'stroke-width: %s' % (int(sw) if sw == int(sw) else sw)]
+            for needle in needles:
+                if needle not in css:
+                    return 'after changing only %s to %r (previous call: %r) the style sheet lacks %r' % (field, alt, prev[field], needle)
+            prev = cur
+        # and back to the defaults through the default entry point
+        r = ctx.conv(s, entry=0)
+        if r.out != o0.out:
+            return 'to_svg returns a different document after conversions with other settings'
     except Malformed as e:
         return 'output not parseable: %s' % e
     return None
